@@ -1,6 +1,11 @@
 (* Lemma library about Base/Dec.v predicates and Model/Amount.v operations. *)
 From Coq Require Import List NArith ZArith Bool QArith Qcanon Lia Permutation.
-From Okv Require Import Base.Maps Base.Dec Model.Amount Model.Book Model.BookSpec Proofs.BookA_Maps.
+From Okv Require Import Base.Maps.
+From Okv Require Import Base.Dec.
+From Okv Require Import Model.Amount.
+From Okv Require Import Model.Book.
+From Okv Require Import Model.BookSpec.
+From Okv Require Import Proofs.BookA_Maps.
 Import ListNotations.
 Open Scope Qc_scope.
 
